@@ -1158,3 +1158,70 @@ func c18EngineRemovesNothing(c *Ctx, rule string) {
 	}
 	c.R.Check(len(bad) == 0, rule, "core: the engine removes no binding", "core/step.go", fmt.Sprintf("%d functions of core reached from Step and Walk: no delete on a bindings map, no Bindings.Remove/DeleteExcept", len(fns)), strings.Join(bad, "; ")+": a binding an action or guard returned (or a permanent binding whose value is null) is gone from the state that continues")
 }
+
+// c03GoroutineSharesLoopVar: the module's language version (go 1.20) gives a
+// loop one variable for all its iterations.  A goroutine started in the loop
+// that captures such a variable reads whatever iteration the loop has reached
+// by then: the matcher's answer then depends on scheduling.  The rule looks at
+// every go statement in the given functions: no variable it captures is a
+// cell that lives outside the innermost loop around the go statement and is
+// assigned inside that loop.
+func c03GoroutineSharesLoopVar(c *Ctx, rule string, fns []*ssa.Function) {
+	var all []*ssa.Function
+	seen := map[*ssa.Function]bool{}
+	for _, f := range fns {
+		for _, g := range ssau.WithAnon(f) {
+			if !seen[g] {
+				seen[g] = true
+				all = append(all, g)
+			}
+		}
+	}
+	var bad []string
+	ngo := 0
+	for _, f := range all {
+		var loops []*flow.Loop
+		ssau.Instrs(f, func(in ssa.Instruction) {
+			g, ok := in.(*ssa.Go)
+			if !ok {
+				return
+			}
+			ngo++
+			if loops == nil {
+				loops = flow.Loops(f)
+			}
+			mc, isMC := g.Call.Value.(*ssa.MakeClosure)
+			var captured []ssa.Value
+			if isMC {
+				captured = mc.Bindings
+			}
+			for _, a := range g.Call.Args {
+				captured = append(captured, a) // a pointer handed over is as good as a capture
+			}
+			for _, L := range loops {
+				if !L.Blocks[g.Block()] {
+					continue
+				}
+				for _, b := range captured {
+					al, isAl := b.(*ssa.Alloc)
+					if !isAl || L.Blocks[al.Block()] {
+						continue
+					}
+					for _, r := range ssau.Referrers(al) {
+						if st, isSt := r.(*ssa.Store); isSt && st.Addr == ssa.Value(al) && L.Blocks[st.Block()] {
+							bad = append(bad, fmt.Sprintf("the goroutine started at %s captures %s, which the loop around it assigns on every iteration (%s)", c.pos(g), al.Comment, c.pos(st)))
+						}
+					}
+				}
+			}
+		})
+	}
+	if len(all) == 0 {
+		c.R.Break(rule + ": no function to examine")
+		return
+	}
+	if len(bad) > 2 {
+		bad = bad[:2]
+	}
+	c.R.Check(len(bad) == 0, rule, "match: no goroutine shares a loop's variable with the loop", "match/match.go", fmt.Sprintf("%d functions, %d go statements: none captures a variable that the loop around it assigns", len(all), ngo), strings.Join(bad, "; ")+": the goroutine sees the value of whatever iteration the loop has reached, so the result depends on scheduling (and the variable is read and written concurrently)")
+}
